@@ -23,6 +23,7 @@ S(e, k) == regs[e.src[k]]
 P(e, k) == e.post[k]
 \* scalar argument k as a value
 SC(e, k) == LET x == e.sc[k] IN [s |-> IF x.m = <<>> THEN 0 ELSE IF x.neg THEN -1 ELSE 1, d |-> x.m]
+SCV(x) == [s |-> IF x.m = <<>> THEN 0 ELSE IF x.neg THEN -1 ELSE 1, d |-> x.m]
 IsUTy(e) == e.ty = "U"
 \* operand k of a binary operation: a source register or a scalar, as selected by e.args
 A(e, k) == IF ~Has(e, "args") THEN S(e, k)
@@ -77,6 +78,27 @@ Rule(e) ==
       [] e.op = "modpow" -> LET mp == ModPowR(S(e, 1), S(e, 2), S(e, 3), e.hq) IN mp.ok /\ PostIs1(e, mp.v)
       [] e.op = "modinv" -> IF e.ret.some THEN ModInvSomeOK(S(e, 1), S(e, 2), PA(e, 1), Adopt(e.ret.hk))
                             ELSE ModInvNoneOK(S(e, 1), S(e, 2), e.hg)
+      [] e.op \in {"to_prim", "to_prim_val"} ->
+            LET x == S(e, 1)  fits == InRange(x, e.t) IN
+            /\ e.ret.some = fits
+            /\ (fits => ZEq(SCV(e.ret.z[1]), x))
+            /\ (e.op = "to_prim_val" => PostIs1(e, IF fits THEN ZZero ELSE x))
+      [] e.op = "to_biguint" -> e.ret.some = (S(e, 1).s >= 0) /\ PostIs1(e, IF S(e, 1).s >= 0 THEN S(e, 1) ELSE ZZero)
+      [] e.op = "to_biguint_val" ->
+            LET x == S(e, 1) IN
+            /\ e.ret.some = (x.s >= 0)
+            /\ ZEq(PA(e, 1), IF x.s >= 0 THEN x ELSE ZZero) /\ ZEq(PA(e, 2), IF x.s >= 0 THEN ZZero ELSE x)
+      [] e.op = "to_bigint" -> e.ret.some /\ PostIs1(e, S(e, 1))
+      [] e.op = "to_f64" -> e.ret.some /\ Norm(e.ret.fb) = FloatBitsOf(S(e, 1).s < 0, S(e, 1).d, 53, 11)
+      [] e.op = "to_f32" -> e.ret.some /\ Norm(e.ret.fb) = FloatBitsOf(S(e, 1).s < 0, S(e, 1).d, 24, 8)
+      [] e.op = "from_prim" ->
+            LET x == SC(e, 1) IN
+            IF e.ty = "U" /\ x.s < 0 THEN ~e.ret.some ELSE e.ret.some /\ PostIs1(e, x)
+      [] e.op = "from_float" ->
+            LET d == FloatTrunc(Norm(e.fb), FloatP(e.w), FloatEB(e.w)) IN
+            IF ~d.finite THEN ~e.ret.some
+            ELSE IF e.ty = "U" /\ d.neg /\ d.mag # <<>> THEN ~e.ret.some
+            ELSE e.ret.some /\ PostIs1(e, Z(IF d.neg THEN -1 ELSE 1, d.mag))
       [] e.op = "to_str_radix" -> IsTextOf(e.ret.text, S(e, 1), e.radix, FALSE)
       [] e.op = "fmt" -> e.ret.text = FormatR(S(e, 1), e.spec)
       [] e.op = "to_radix_le" -> IsDigitsOf(Reverse(e.ret.bytes), S(e, 1).d, e.radix) /\ (e.ty = "I" => e.ret.n = S(e, 1).s)
